@@ -176,6 +176,18 @@ def run(ctx: Ctx) -> None:
         line, col = o.value.get("line"), o.value.get("column")
         wl, wc = SNum.sym(f"line_{ptag}", 1, None), SNum.sym(f"col_{ptag}", 1, None)
         ctx.check(line == wl and col == wc, "Q4", f"path shape {path}", lcm, f"line {line}, column {col}", f"an error on a {what} (absolute_path {path}) is located at ({line}, {col}) but the position recorded for it is ({wl}, {wc})")
+    # one Validator, several roots in one call: every message carries the position recorded in *its* root
+    multi = [(["name"], "map_name"), (["layers", 0, "type"], "layer_type"), (["layers", 0], "layer"), (["size", 1], "map_size")]
+    o, roots = valmodel.validate_roots(e, [p_ for p_, _ in multi], 2)
+    lv = repo.loc("validator", repo.func("validator.Validator.validate"))
+    if o.kind != "return" or not isinstance(o.value, list) or len(o.value) != 2 * len(multi):
+        ctx.finding("Q4", "two roots in one validate() call", lv, f"validate([root0, root1]) with {len(multi)} errors per root gives {o.kind} {o.exc or ''} / {len(o.value) if isinstance(o.value, list) else o.value!r} message(s)")
+    else:
+        for r in range(2):
+            for j, (p_, ptag) in enumerate(multi):
+                m = o.value[r * len(multi) + j]
+                wl, wc = SNum.sym(f"line_{ptag}_r{r}", 1, None), SNum.sym(f"col_{ptag}_r{r}", 1, None)
+                ctx.check(m.get("line") == wl and m.get("column") == wc, "Q4", f"root {r} of two in one call, path {p_}", lv, f"line {m.get('line')}", f"validate([root0, root1]): the error at {p_} of root {r} is located at ({m.get('line')}, {m.get('column')}), but that root records ({wl}, {wc}) for it: the position of another root is reported")
     o, root = valmodel.create_message(e, ["name"], with_position=False)
     ctx.check(o.kind == "return" and "line" not in o.value, "Q4", "no position recorded: message without line/column", lcm, "", f"{o.value!r}")
 
